@@ -48,6 +48,14 @@ type Observation struct {
 	Conc   string
 }
 
+type Model map[string]uint64
+
+// Prefix is a queued decision prefix with (optionally) a model known to satisfy it.
+type Prefix struct {
+	Trail []uint64
+	Model Model
+}
+
 // PathResult summarises one explored path.
 type PathResult struct {
 	Trail       []uint64
@@ -62,7 +70,7 @@ type PathResult struct {
 	Sample      []ReplayItem // model of the path condition (for samples / validation)
 	Observed    []string     // predicted Observe values under Sample
 	Funcs       map[string]bool
-	NewPrefixes [][]uint64
+	NewPrefixes []Prefix
 	Stubs       map[string]bool
 }
 
@@ -89,14 +97,20 @@ type Path struct {
 	ufDeclared  int
 	queries     int
 	wantSample  bool
-	lastModelOK bool
 	trapHandler func(m *Machine, name string, fn *ssa.Function, args []value) (value, bool)
+
+	lits      map[int]bool // literals implied by the path condition
+	models    []Model      // models known to satisfy the current path condition
+	initModel Model        // valid once the prefix has been replayed
 }
 
 func (p *Path) replaying() bool { return len(p.trail) < len(p.prefix) }
 
 // syncDecls declares new variables / UFs to the solver.
 func (p *Path) syncDecls() {
+	if p.solver == nil {
+		return
+	}
 	for ; p.declared < len(p.F.Vars); p.declared++ {
 		v := p.F.Vars[p.declared]
 		p.solver.Cmd(fmt.Sprintf("(declare-const %s %s)", v.Name, v.Sort.String()))
@@ -116,6 +130,29 @@ func (p *Path) define(t *smt.Term) string {
 	return name
 }
 
+func (p *Path) noteLit(t *smt.Term, val bool) {
+	p.lits[t.ID] = val
+	switch {
+	case t.Op == smt.ONot:
+		p.noteLit(t.Args[0], !val)
+	case t.Op == smt.OAnd && val:
+		p.noteLit(t.Args[0], true)
+		p.noteLit(t.Args[1], true)
+	case t.Op == smt.OOr && !val:
+		p.noteLit(t.Args[0], false)
+		p.noteLit(t.Args[1], false)
+	}
+}
+
+func (p *Path) evalBool(t *smt.Term, mdl Model) (bool, bool) {
+	r, ok := p.F.Eval(t, mdl, map[int]*smt.Term{})
+	if !ok {
+		return false, false
+	}
+	return r.U == 1, true
+}
+
+// assertTerm adds t to the path condition.
 func (p *Path) assertTerm(t *smt.Term) {
 	if t.IsTrue() {
 		return
@@ -123,30 +160,103 @@ func (p *Path) assertTerm(t *smt.Term) {
 	n := p.define(t)
 	p.solver.Cmd("(assert " + n + ")")
 	p.pcN++
+	p.noteLit(t, true)
+	// keep only the models that still satisfy the path condition
+	if len(p.models) > 0 {
+		kept := p.models[:0]
+		for _, mdl := range p.models {
+			if v, ok := p.evalBool(t, mdl); ok && v {
+				kept = append(kept, mdl)
+			}
+		}
+		p.models = kept
+	}
 }
 
-// check asks whether pc ∧ t is satisfiable.
-func (p *Path) check(t *smt.Term) smt.Result {
-	if t.IsFalse() {
-		return smt.Unsat
+func (p *Path) addModel(mdl Model) {
+	if mdl == nil {
+		return
 	}
-	n := p.define(t)
-	p.solver.Cmd("(push 1)")
-	p.solver.Cmd("(assert " + n + ")")
-	r, err := p.solver.CheckSat()
+	if len(p.models) >= 6 {
+		p.models = p.models[1:]
+	}
+	p.models = append(p.models, mdl)
+}
+
+// fetchModel reads the values of all declared variables after a sat answer.
+func (p *Path) fetchModel() Model {
+	var names []string
+	for _, v := range p.F.Vars {
+		names = append(names, v.Name)
+	}
+	if len(names) == 0 {
+		return Model{}
+	}
+	vals, err := p.solver.GetValues(names)
+	if err != nil {
+		p.res.Inconcl = append(p.res.Inconcl, "get-value: "+err.Error())
+		return nil
+	}
+	return Model(vals)
+}
+
+// query asks whether pc ∧ t is satisfiable; on sat the model is returned.
+func (p *Path) query(t *smt.Term) (smt.Result, Model) {
+	if t.IsFalse() {
+		return smt.Unsat, nil
+	}
+	if v, ok := p.lits[t.ID]; ok && !v {
+		return smt.Unsat, nil
+	}
+	var r smt.Result
+	var err error
+	if t.IsTrue() {
+		p.syncDecls()
+		r, err = p.solver.CheckSatAssuming("")
+	} else {
+		n := p.define(t)
+		r, err = p.solver.CheckSatAssuming(n)
+	}
 	p.queries++
-	p.lastModelOK = r == smt.Sat
 	if err != nil {
 		p.res.Inconcl = append(p.res.Inconcl, "solver: "+err.Error())
 		if p.solver.Dead() {
 			panic(pathEnd{"solver-died"})
 		}
-		r = smt.Unknown
+		return smt.Unknown, nil
 	}
-	return r
+	if r == smt.Sat {
+		return r, p.fetchModel()
+	}
+	return r, nil
 }
 
-func (p *Path) popCheck() { p.solver.Cmd("(pop 1)") }
+// witnesses evaluates c under the cached models.
+func (p *Path) witnesses(c *smt.Term) (wT, wF Model) {
+	for _, mdl := range p.models {
+		v, ok := p.evalBool(c, mdl)
+		if !ok {
+			continue
+		}
+		if v && wT == nil {
+			wT = mdl
+		}
+		if !v && wF == nil {
+			wF = mdl
+		}
+		if wT != nil && wF != nil {
+			break
+		}
+	}
+	return
+}
+
+func (p *Path) endReplayHook() {
+	if p.initModel != nil && !p.replaying() {
+		p.models = append(p.models, p.initModel)
+		p.initModel = nil
+	}
+}
 
 // branch decides a symbolic condition; both feasible sides are explored.
 func (m *Machine) branch(c *smt.Term) bool {
@@ -157,45 +267,68 @@ func (m *Machine) branch(c *smt.Term) bool {
 	if p.replaying() {
 		d := p.prefix[len(p.trail)]
 		p.trail = append(p.trail, d)
-		if d == 1 {
-			p.assertTerm(c)
-		} else {
-			p.assertTerm(p.F.Not(c))
+		lit := c
+		if d&1 == 0 {
+			lit = p.F.Not(c)
 		}
-		return d == 1
+		if d&2 != 0 {
+			p.noteLit(lit, true) // implied by the path condition: no need to assert
+		} else {
+			p.assertTerm(lit)
+		}
+		p.endReplayHook()
+		return d&1 == 1
 	}
 	if len(p.trail) >= p.maxDec {
 		panic(pathEnd{"unwind:decisions"})
 	}
-	rt := p.check(c)
-	p.popCheck()
-	var rf smt.Result
+	// implied literal?
+	if v, ok := p.lits[c.ID]; ok {
+		if v {
+			p.trail = append(p.trail, 3)
+		} else {
+			p.trail = append(p.trail, 2)
+		}
+		return v
+	}
+	wT, wF := p.witnesses(c)
+	rt, rf := smt.Sat, smt.Sat
+	if wT == nil {
+		rt, wT = p.query(c)
+		if wT != nil {
+			p.addModel(wT)
+		}
+	}
 	if rt == smt.Unsat {
 		rf = smt.Sat // pc is satisfiable by invariant
-	} else {
-		rf = p.check(p.F.Not(c))
-		p.popCheck()
+	} else if wF == nil {
+		rf, wF = p.query(p.F.Not(c))
+		if wF != nil {
+			p.addModel(wF)
+		}
 	}
 	if rt == smt.Unknown || rf == smt.Unknown {
 		p.res.Inconcl = append(p.res.Inconcl, "unknown at branch "+m.where())
 	}
-	takeTrue := rt != smt.Unsat
-	if rt != smt.Unsat && rf != smt.Unsat {
-		// both sides: enqueue the false side
-		np := append(append([]uint64{}, p.trail...), 0)
-		p.res.NewPrefixes = append(p.res.NewPrefixes, np)
-	}
 	if rt == smt.Unsat && rf == smt.Unsat {
 		panic(pathEnd{"infeasible"})
 	}
-	if takeTrue {
-		p.trail = append(p.trail, 1)
-		p.assertTerm(c)
-	} else {
-		p.trail = append(p.trail, 0)
-		p.assertTerm(p.F.Not(c))
+	if rt == smt.Unsat {
+		// forced false: pc implies not c
+		p.trail = append(p.trail, 2)
+		p.noteLit(c, false)
+		return false
 	}
-	return takeTrue
+	if rf == smt.Unsat {
+		p.trail = append(p.trail, 3)
+		p.noteLit(c, true)
+		return true
+	}
+	np := append(append([]uint64{}, p.trail...), 0)
+	p.res.NewPrefixes = append(p.res.NewPrefixes, Prefix{Trail: np, Model: wF})
+	p.trail = append(p.trail, 1)
+	p.assertTerm(c)
+	return true
 }
 
 // branchVal is branch on a bool-or-Sym value.
@@ -218,14 +351,19 @@ func (m *Machine) choose(n int, why string) int {
 	if p.replaying() {
 		d := p.prefix[len(p.trail)]
 		p.trail = append(p.trail, d)
+		p.endReplayHook()
 		return int(d)
 	}
 	if len(p.trail) >= p.maxDec {
 		panic(pathEnd{"unwind:decisions"})
 	}
+	var mdl Model
+	if len(p.models) > 0 {
+		mdl = p.models[0]
+	}
 	for i := 1; i < n; i++ {
 		np := append(append([]uint64{}, p.trail...), uint64(i))
-		p.res.NewPrefixes = append(p.res.NewPrefixes, np)
+		p.res.NewPrefixes = append(p.res.NewPrefixes, Prefix{Trail: np, Model: mdl})
 	}
 	p.trail = append(p.trail, 0)
 	return 0
@@ -242,15 +380,16 @@ func (m *Machine) concretize(t *smt.Term) uint64 {
 		if p.replaying() {
 			v = p.prefix[len(p.trail)]
 			p.trail = append(p.trail, v)
+			p.endReplayHook()
 		} else {
 			if len(p.trail) >= p.maxDec {
 				panic(pathEnd{"unwind:decisions"})
 			}
-			mv, ok := p.modelOf([]*smt.Term{t})
+			mv, ok := p.valueOf(t)
 			if !ok {
 				panic(pathEnd{"infeasible"})
 			}
-			v = mv[0]
+			v = mv
 			p.trail = append(p.trail, v)
 		}
 		var c *smt.Term
@@ -278,41 +417,36 @@ func (m *Machine) concretizeInt(v value, ii intInfo) int64 {
 	panic(engineFault(fmt.Sprintf("concretizeInt: %T", v)))
 }
 
-// modelOf returns values of the given BV/Bool terms under some model of pc.
-func (p *Path) modelOf(ts []*smt.Term) ([]uint64, bool) {
-	names := make([]string, len(ts))
-	for i, t := range ts {
-		names[i] = p.define(t)
+// valueOf returns the value of t under some model of pc.
+func (p *Path) valueOf(t *smt.Term) (uint64, bool) {
+	for _, mdl := range p.models {
+		if r, ok := p.F.Eval(t, mdl, map[int]*smt.Term{}); ok {
+			return r.U, true
+		}
 	}
-	r, err := p.solver.CheckSat()
-	p.queries++
-	if err != nil || r != smt.Sat {
+	r, mdl := p.query(p.F.BoolConst(true))
+	if r != smt.Sat || mdl == nil {
 		if r == smt.Unknown {
-			p.res.Inconcl = append(p.res.Inconcl, "unknown in modelOf")
+			p.res.Inconcl = append(p.res.Inconcl, "unknown in valueOf")
 		}
-		return nil, false
+		return 0, false
 	}
-	// constants need no query
-	var q []string
-	for i, t := range ts {
-		if !t.IsConst() {
-			q = append(q, names[i])
-		}
+	p.addModel(mdl)
+	if rv, ok := p.F.Eval(t, mdl, map[int]*smt.Term{}); ok {
+		return rv.U, true
 	}
-	vals, err := p.solver.GetValues(q)
+	// term not evaluable in Go (UF etc.): ask the solver
+	n := p.define(t)
+	rr, err := p.solver.CheckSatAssuming("")
+	p.queries++
+	if err != nil || rr != smt.Sat {
+		return 0, false
+	}
+	vals, err := p.solver.GetValues([]string{n})
 	if err != nil {
-		p.res.Inconcl = append(p.res.Inconcl, "get-value: "+err.Error())
-		return nil, false
+		return 0, false
 	}
-	out := make([]uint64, len(ts))
-	for i, t := range ts {
-		if t.IsConst() {
-			out[i] = t.U
-		} else {
-			out[i] = vals[names[i]]
-		}
-	}
-	return out, true
+	return vals[n], true
 }
 
 // ---- inputs ----
@@ -322,35 +456,22 @@ func (p *Path) newVar(s smt.Sort) *smt.Term {
 	return p.F.Var(fmt.Sprintf("in%d", p.varN), s)
 }
 
-func (p *Path) inputVector(extra *smt.Term) ([]ReplayItem, bool) {
-	// assumes the solver holds pc (and extra asserted by caller within a push)
-	var ts []*smt.Term
-	for _, in := range p.inputs {
-		ts = append(ts, in.Terms...)
-	}
-	var vals []uint64
-	if len(ts) > 0 {
-		v, ok := p.modelValues(ts)
-		if !ok {
-			return nil, false
-		}
-		vals = v
+// inputVector renders the input values under a model.
+func (p *Path) inputVector(mdl Model) ([]ReplayItem, bool) {
+	if mdl == nil {
+		return nil, false
 	}
 	var out []ReplayItem
-	k := 0
 	for _, in := range p.inputs {
 		switch in.Kind {
 		case "bytes":
 			var sb strings.Builder
-			for i := 0; i < in.N; i++ {
-				fmt.Fprintf(&sb, "%02x", vals[k])
-				k++
+			for _, t := range in.Terms {
+				fmt.Fprintf(&sb, "%02x", mdl[t.Name]&0xff)
 			}
 			out = append(out, ReplayItem{"bytes", sb.String()})
 		default:
-			v := vals[k]
-			k++
-			out = append(out, ReplayItem{in.Kind, fmtInput(in.Kind, v)})
+			out = append(out, ReplayItem{in.Kind, fmtInput(in.Kind, mdl[in.Terms[0].Name])})
 		}
 	}
 	return out, true
@@ -369,7 +490,7 @@ func fmtInput(kind string, v uint64) string {
 		return fmt.Sprint(int16(v))
 	case "i32":
 		return fmt.Sprint(int32(v))
-	case "i64":
+	case "i64", "choose":
 		return fmt.Sprint(int64(v))
 	case "f64", "f32":
 		return fmt.Sprintf("0x%x", v)
@@ -377,37 +498,17 @@ func fmtInput(kind string, v uint64) string {
 	return fmt.Sprint(v)
 }
 
-// modelValues: get-value after a successful check-sat (no new check).
-func (p *Path) modelValues(ts []*smt.Term) ([]uint64, bool) {
-	names := make([]string, len(ts))
-	var q []string
-	for i, t := range ts {
-		names[i] = ref(t)
-		if !t.IsConst() {
-			q = append(q, names[i])
-		}
+// anyModel returns a model of the current path condition.
+func (p *Path) anyModel() Model {
+	if len(p.models) > 0 {
+		return p.models[0]
 	}
-	vals, err := p.solver.GetValues(q)
-	if err != nil {
-		p.res.Inconcl = append(p.res.Inconcl, "get-value: "+err.Error())
-		return nil, false
+	r, mdl := p.query(p.F.BoolConst(true))
+	if r == smt.Sat && mdl != nil {
+		p.addModel(mdl)
+		return mdl
 	}
-	out := make([]uint64, len(ts))
-	for i, t := range ts {
-		if t.IsConst() {
-			out[i] = t.U
-		} else {
-			out[i] = vals[names[i]]
-		}
-	}
-	return out, true
-}
-
-func ref(t *smt.Term) string {
-	if t.Op == smt.OVar {
-		return t.Name
-	}
-	return fmt.Sprintf("t!%d", t.ID)
+	return nil
 }
 
 // ---- assume / assert / reach ----
@@ -421,13 +522,22 @@ func (m *Machine) assume(v value) {
 	case *Sym:
 		p := m.path
 		if !p.replaying() {
-			r := p.check(c.T)
-			p.popCheck()
-			if r == smt.Unsat {
-				panic(pathEnd{"infeasible"})
+			if known, ok := p.lits[c.T.ID]; ok {
+				if !known {
+					panic(pathEnd{"infeasible"})
+				}
+				return
 			}
-			if r == smt.Unknown {
-				p.res.Inconcl = append(p.res.Inconcl, "unknown at assume "+m.where())
+			wT, _ := p.witnesses(c.T)
+			if wT == nil {
+				r, mdl := p.query(c.T)
+				if r == smt.Unsat {
+					panic(pathEnd{"infeasible"})
+				}
+				if r == smt.Unknown {
+					p.res.Inconcl = append(p.res.Inconcl, "unknown at assume "+m.where())
+				}
+				p.addModel(mdl)
 			}
 		}
 		p.assertTerm(c.T)
@@ -450,23 +560,25 @@ func (m *Machine) assertProp(v value, label string) {
 	default:
 		panic(engineFault(fmt.Sprintf("assert: %T", v)))
 	}
-	r := smt.Sat
-	pushed := false
-	if !neg.IsTrue() {
-		r = p.check(neg)
-		pushed = true
-	} else {
-		// need a model of pc
-		rr, err := p.solver.CheckSat()
-		p.queries++
-		if err != nil {
-			rr = smt.Unknown
+	var r smt.Result
+	var mdl Model
+	if known, ok := p.lits[neg.ID]; ok && !known {
+		r = smt.Unsat
+	} else if neg.IsTrue() {
+		mdl = p.anyModel()
+		if mdl != nil {
+			r = smt.Sat
+		} else {
+			r = smt.Unknown
 		}
-		r = rr
+	} else if wT, _ := p.witnesses(neg); wT != nil {
+		r, mdl = smt.Sat, wT
+	} else {
+		r, mdl = p.query(neg)
 	}
 	switch r {
 	case smt.Sat:
-		vec, ok := p.inputVector(nil)
+		vec, ok := p.inputVector(mdl)
 		ce := CounterExample{Label: label, Kind: "assert", Vector: vec, Where: m.where(), Trail: append([]uint64{}, p.trail...)}
 		if !ok {
 			ce.Message = "model unavailable"
@@ -475,19 +587,18 @@ func (m *Machine) assertProp(v value, label string) {
 	case smt.Unknown:
 		p.res.Inconcl = append(p.res.Inconcl, "unknown at assert "+label+" "+m.where())
 	}
-	if pushed {
-		p.popCheck()
-	}
 	// continue under the assumption that the assertion held
 	if neg.IsTrue() {
 		panic(pathEnd{"assert-failed"})
 	}
 	pos := p.F.Not(neg)
 	if r != smt.Unsat {
-		rr := p.check(pos)
-		p.popCheck()
-		if rr == smt.Unsat {
-			panic(pathEnd{"assert-failed"})
+		if wT, _ := p.witnesses(pos); wT == nil {
+			rr, m2 := p.query(pos)
+			if rr == smt.Unsat {
+				panic(pathEnd{"assert-failed"})
+			}
+			p.addModel(m2)
 		}
 	}
 	p.assertTerm(pos)
